@@ -219,7 +219,7 @@ func immutableWriters(p *Program, specs *Specs) (unverified []string) {
 						if pt, ok := under(a.X.Type()).(*types.Pointer); ok {
 							if st, ok := under(pt.Elem()).(*types.Struct); ok {
 								tn := typeName(pt.Elem())
-								if ts := specs.Types[tn]; ts != nil && ts.Immutable[st.Field(a.Field).Name()] {
+								if ts := specs.Types[tn]; (ts != nil && ts.Immutable[st.Field(a.Field).Name()]) || specs.StrictFields[tn+"."+st.Field(a.Field).Name()] {
 									// initialisation of an object allocated in the same function is the constructor pattern
 									if _, isAlloc := a.X.(*ssa.Alloc); !isAlloc {
 										what = tn + "." + st.Field(a.Field).Name()
